@@ -14,6 +14,36 @@ CHECKS = {
              "both backends through the real websocket EVENT path; each transition is judged by a frame condition relating pre-state, event "
              "and post-state (older versions gone, nothing else removed, newest of every address kept). Exhaustive within the universes and depth.",
         note=STORE_NOTE),
+    "C06": dict(
+        level="model_checking", design_ref="DESIGN.md section 4 C06",
+        technique="explicit-state BFS over the real storage; per-transition oracle on OK frames, pushes and dumps",
+        text="All submission sequences up to the depth bound over a universe of valid, invalid, duplicate, replaceable, deleting, ephemeral, "
+             "long-tag and integer-boundary events are executed through the real websocket handler on both backends with a catch-all subscriber; "
+             "every transition is checked for: exactly one OK, OK=true implies retrievable/ephemeral+pushed/superseded, valid never refused, "
+             "OK=false leaves no trace, re-submission changes nothing and is not re-broadcast.",
+        note=STORE_NOTE + "; 'well-formed event must be accepted' is only demanded for created_at/kind in (0, 2^31); created_at=0 is excluded "
+             "because aionostr's Event constructor (third party) replaces it with the current time"),
+    "C08": dict(
+        level="model_checking", design_ref="DESIGN.md section 4 C08",
+        technique="explicit-state BFS over the real storage with frame-condition oracle",
+        text="All histories up to the depth bound mixing events of two authors with deletions referencing own older/newer, foreign, unknown, "
+             "several, upper-case and malformed ids; per transition: removed set is a subset of {referenced and same author} and a superset of "
+             "the own older referenced ones, which are then no longer served by REQ ids nor by get_event (/e/<id>).",
+        note=STORE_NOTE),
+    "C10": dict(
+        level="model_checking", design_ref="DESIGN.md section 4 C10",
+        technique="state invariant evaluated on the full keyspace in every state of explicit-state BFS (plus GC and delete_event transitions)",
+        text="The complete keyspace of the LMDB double is parsed after every transition (adds, replacements, deletions, garbage collection, "
+             "delete_event) over the universes of C06/C08/C09/C17 and a tag-shape universe; records and index entries must correspond in both "
+             "directions, with expected keys computed by an independent encoder.",
+        note=STORE_NOTE + "; crash/fault-interrupted histories are covered by C07's check, which evaluates the same invariant"),
+    "C17": dict(
+        level="model_checking", design_ref="DESIGN.md section 4 C17",
+        technique="exhaustive subset enumeration of a boundary universe x one real GC transition under an injected clock",
+        text="Every subset of a boundary-event universe is stored through the real EVENT path and one real collector pass runs at T (two T values "
+             "incl. a digit-count boundary) on both backends; removed/kept sets are compared with the property's wording; leftovers in tag rows "
+             "or index keys are checked; ephemeral delivery/non-queryability and the periodic driver surviving an injected error are scenarios.",
+        note=STORE_NOTE),
 }
 
 _ALL = ["C%02d" % i for i in range(1, 21)]
